@@ -162,7 +162,7 @@ impl ChanSc {
 #[derive(Clone, Debug)]
 pub enum EvK {
   Send { form: SendForm, input: Vec<u32>, out: SendOut, is_async: bool },
-  Recv { form: RecvForm, out: RecvOut, is_async: bool },
+  Recv { form: RecvForm, out: RecvOut, is_async: bool, max: usize },
   TxClose { ok: bool },
   RxClose { ok: bool },
   TxDrop,
@@ -171,6 +171,7 @@ pub enum EvK {
   RxClone { to: u16 },
   Observe { tx_side: bool, len: Option<usize>, cap: Option<usize>, full: Option<bool>, empty: Option<bool>, closed: bool },
   ConsumerBail,
+  HoldOpenTimeout,
 }
 
 #[derive(Clone, Debug)]
@@ -209,6 +210,9 @@ impl Shared {
     self.next_handle.fetch_add(1, Ordering::SeqCst) as u16
   }
 }
+
+/// scheduling rounds the hold-open main thread grants before it gives up waiting
+pub const HOLD_OPEN_YIELDS: u32 = 3000;
 
 fn token_id(producer: usize, seq: usize) -> u32 {
   (producer as u32) * 256 + seq as u32
@@ -357,7 +361,7 @@ fn run_consumer(idx: usize, nprod: usize, c: &Consumer, mut rx: Box<dyn Rx>, mut
           got_total += n;
           sh.received.fetch_add(n as u32, Ordering::SeqCst);
           let res = out.res;
-          record(actor, hid, inv, EvK::Recv { form, out, is_async });
+          record(actor, hid, inv, EvK::Recv { form, out, is_async, max });
           match res {
             RRes::Disconnected => {
               done = true;
@@ -420,7 +424,7 @@ fn run_consumer(idx: usize, nprod: usize, c: &Consumer, mut rx: Box<dyn Rx>, mut
           let is_async = rx.is_async();
           let inv = next_seq();
           let (form, out) = do_recv(&mut rx, form, 2, 1000, Plan::NONE);
-          record(actor, hid, inv, EvK::Recv { form, out, is_async });
+          record(actor, hid, inv, EvK::Recv { form, out, is_async, max: 2 });
         }
         let inv = next_seq();
         let ok = rx.close();
@@ -439,12 +443,33 @@ pub struct ChanRun {
   pub ledger: Vec<LedgerEntry>,
 }
 
-pub fn execute_scenario(sc: &ChanSc, record_trace: bool) -> ChanRun {
+thread_local! {
+  static CUR: RefCell<Option<Arc<ChanSc>>> = const { RefCell::new(None) };
+}
+
+/// Install `sc` as the current run of this OS thread (reset ledger and history).
+pub fn begin_scenario(sc: &ChanSc, record_trace: bool) -> RunCfg {
   ledger_reset();
   let _ = take_events();
-  let cfg = sc.knobs.run_cfg(record_trace);
-  let scn = Arc::new(sc.clone());
-  let out = execute(&cfg, move || {
+  CUR.with(|c| *c.borrow_mut() = Some(Arc::new(sc.clone())));
+  sc.knobs.run_cfg(record_trace)
+}
+
+pub fn finish_scenario(out: RunOut) -> ChanRun {
+  CUR.with(|c| *c.borrow_mut() = None);
+  ChanRun { out, events: take_events(), ledger: ledger_snapshot() }
+}
+
+pub fn execute_scenario(sc: &ChanSc, record_trace: bool) -> ChanRun {
+  let cfg = begin_scenario(sc, record_trace);
+  let out = execute(&cfg, scenario_main);
+  finish_scenario(out)
+}
+
+/// The simulated main thread of a CH-CONC run.
+pub fn scenario_main() {
+  let scn: Arc<ChanSc> = CUR.with(|c| c.borrow().clone()).expect("no current scenario");
+  {
     let sc = scn.clone();
     let sh = Arc::new(Shared { next_handle: AtomicU32::new(0), sent_ok: AtomicU32::new(0), received: AtomicU32::new(0) });
     let (tx0, rx0) = make(sc.flavour, sc.cap, sc.async_ctor);
@@ -492,8 +517,18 @@ pub fn execute_scenario(sc: &ChanSc, record_trace: bool) -> ChanRun {
     }
     if let Some(tx) = tx0.take() {
       // hold-open variant: wake-ups are needed *before* disconnect could paper over them
+      let mut rounds = 0u32;
       while sh.received.load(Ordering::SeqCst) < sh.sent_ok.load(Ordering::SeqCst) {
         shuttle::thread::yield_now();
+        rounds += 1;
+        if rounds > HOLD_OPEN_YIELDS {
+          // Nobody received what is available although every other thread had thousands of
+          // scheduling rounds: remember it and let the disconnect finish the run, so the
+          // history is complete and the oracles can tell a lost value from a lost wake-up.
+          let inv = next_seq();
+          record(255, tx0_id, inv, EvK::HoldOpenTimeout);
+          break;
+        }
       }
       let inv = next_seq();
       drop(tx);
@@ -502,6 +537,5 @@ pub fn execute_scenario(sc: &ChanSc, record_trace: bool) -> ChanRun {
     for j in joins {
       j.join().unwrap();
     }
-  });
-  ChanRun { out, events: take_events(), ledger: ledger_snapshot() }
+  }
 }
